@@ -137,6 +137,11 @@ pub struct QuerySpec {
     /// sent long after the last fault: must get the real answer (bounded recovery)
     #[serde(default)]
     pub after_faults: bool,
+    /// cache shape: do not send at `at_ms` but this many milliseconds after the
+    /// instant at which the newest upstream reply for the same key reaches its
+    /// smallest TTL (negative: before)
+    #[serde(default)]
+    pub ttl_boundary: Option<i64>,
 }
 
 #[derive(Clone, Debug, Serialize, Deserialize)]
@@ -171,6 +176,12 @@ pub struct PlanB {
     /// a second IPv4 address on the LAN interface (for "another local address")
     #[serde(default)]
     pub lan4_alias: Option<Ipv4Addr>,
+    /// cookie shape: which case this run exercises (for the evidence) and how a learnt
+    /// server cookie is damaged before it is presented (keep this many octets, append these)
+    #[serde(default)]
+    pub cookie_case: String,
+    #[serde(default)]
+    pub cookie_mangle: Option<(usize, Vec<u8>)>,
 }
 
 impl PlanB {
@@ -453,6 +464,8 @@ pub fn generate(seed: u64, g: &GenB) -> PlanB {
         max_seg: *r.pick(&[0usize, 0, 0, 1460, 536]),
         lat_max_us: *r.pick(&[100u64, 2000, 20000]),
         lan4_alias: None,
+        cookie_case: String::new(),
+        cookie_mangle: None,
     };
     if r.chance(0.5) {
         /* a second IPv4 address on the LAN interface: the reply must come from the
@@ -644,6 +657,7 @@ pub fn generate(seed: u64, g: &GenB) -> PlanB {
             quiet_probe: false,
             liveness_probe: false,
             after_faults: false,
+            ttl_boundary: None,
         });
     }
     if faulty && !p.queries.is_empty() {
@@ -706,6 +720,11 @@ fn add_cache_followups(p: &mut PlanB, r: &mut Rng) {
             };
             let mut f = q.clone();
             f.at_ms = q.at_ms + off_ms;
+            if r.chance(0.45) {
+                /* aim at the expiry instant itself, as observed at run time */
+                f.at_ms = q.at_ms + ttl * 1000;
+                f.ttl_boundary = Some(*r.pick(&[0i64, 0, -1, 1, -1000, 1000, -999, 999, 1001, 2000]));
+            }
             port += 1;
             f.src_port = port;
             f.id = r.below(65536) as u16;
@@ -765,6 +784,7 @@ pub fn generate_flood(seed: u64, cookie: bool) -> PlanB {
         quiet_probe: false,
         liveness_probe: false,
         after_faults: false,
+        ttl_boundary: None,
     };
     let mut port = 1024u16;
     let mut next_port = || {
@@ -814,7 +834,13 @@ pub fn generate_flood(seed: u64, cookie: bool) -> PlanB {
         r.fill(&mut cc);
         let ed = |cookie: CookieSpec, cc: [u8; 8]| Some(EdnsSpec { size: 1232, do_bit: false, cookie, client_cookie: cc, nsid: false, extra: vec![] });
         p.queries.push(mk(&mut r, 1000, c, next_port(), lan, "learn.example".into(), T_A, ed(CookieSpec::ClientOnly, cc)));
-        let variant = r.below(6);
+        let variant = r.below(8);
+        p.cookie_case = ["valid", "other_client_address", "other_server_address", "other_client_cookie", "forged", "two_key_rotations_old", "valid_prefix_only", "valid_plus_extra_octets"][variant as usize].to_string();
+        match variant {
+            6 => p.cookie_mangle = Some((*r.pick(&[8usize, 16, 24, 31]), vec![])),
+            7 => p.cookie_mangle = Some((32, r.bytes(*r.clone().pick(&[1usize, 8])))),
+            _ => (),
+        }
         let mut t = 3_000u64;
         if variant == 5 {
             /* cookie-bearing traffic at +37 h and +74 h forces two key rotations */
